@@ -8,6 +8,8 @@ Section Proofs.
   Variable gm : string -> string -> bool.
   Variable content : string -> list string.
   Variable hard : bool.
+  Variable defer : bool.
+  Variable orig : bool.
   Variable fs : fsys.
   Variable base : string.
   Variable watches : list string.
@@ -23,13 +25,13 @@ Section Proofs.
   Lemma do_skip_files t p : t_files (do_skip t p) = t_files t.
   Proof. reflexivity. Qed.
 
-  Lemma enum_children_files dir t : t_files (enum_children gm hard fs base dir t) = t_files t.
+  Lemma enum_children_files dir t : t_files (enum_children gm hard defer fs base dir t) = t_files t.
   Proof.
     unfold enum_children. generalize (children fs dir). intro l. revert t.
     induction l as [|e r IH]; intro t; simpl; [reflexivity|]. rewrite IH.
     destruct (must_skip base (t_skip t) (fst e)); [reflexivity|].
     destruct (snd e); try reflexivity.
-    destruct ((hard && vcs_dir (fst e)) || negb (check_dir gm true (t_filter t) (fst e))); reflexivity.
+    destruct ((hard && vcs_dir (fst e)) || (negb defer && negb (check_dir gm true (t_filter t) (fst e)))); reflexivity.
   Qed.
 
   Lemma discover_in_files init dir t :
@@ -52,20 +54,20 @@ Section Proofs.
     apply G. intros nt H; exact H.
   Qed.
 
-  Lemma step_inv init t : Inv init t -> Inv init (step gm content hard fs base watches t).
+  Lemma step_inv init t : Inv init t -> Inv init (step gm content hard defer orig fs base watches t).
   Proof.
     intro I. unfold step. destruct (rev (t_visit t)) as [|p rr]; [exact I|].
     set (t1 := mkT (rev rr) (t_skip t) (t_filter t) (t_files t)).
     assert (Inv init t1) as I1 by exact I.
     destruct (must_skip base (t_skip t1) p); [exact I1|].
-    destruct (negb (check_dir gm true (t_filter t1) p)); [exact I1|].
+    destruct (negb (orig && String.eqb p base) && negb (check_dir gm true (t_filter t1) p)); [exact I1|].
     destruct (watch_related watches p) eqn:W; simpl negb; [|exact I1].
     destruct (fs_get fs p) as [[| |]|]; try exact I1.
     apply discover_in_files; [exact W|].
     intros f Hf. rewrite enum_children_files in Hf. apply I1. exact Hf.
   Qed.
 
-  Lemma run_inv init n t : Inv init t -> Inv init (run gm content hard n fs base watches t).
+  Lemma run_inv init n t : Inv init t -> Inv init (run gm content hard defer orig n fs base watches t).
   Proof.
     revert t. induction n as [|n IH]; intros t I; simpl; [exact I|].
     destruct (t_visit t); [exact I|]. apply IH. apply step_inv. exact I.
@@ -75,8 +77,8 @@ End Proofs.
 (* every returned file is an explicit / origin-level one or the non-empty regular .ignore / .gitignore /
    .hgignore of a visited directory, tagged with that directory and the right project type, and that
    directory is related (ancestor, descendant or equal) to some explicit watch when watches are given *)
-Theorem discovered_files_exact gm content hard fs origin watches explicit excludes f :
-  In f (from_origin gm content hard fs origin watches explicit excludes) ->
+Theorem discovered_files_exact gm content hard defer orig fs origin watches explicit excludes f :
+  In f (from_origin gm content hard defer orig fs origin watches explicit excludes) ->
   (exists p, In p explicit /\ f = mkDf p (Some origin) None) \/
   (exists e, excludes = Some e /\ find_file fs e = true /\ f = mkDf e None (Some PT_Git)) \/
   (exists name t, In (name, t) origin_files /\ find_file fs (join origin name) = true /\
@@ -85,8 +87,8 @@ Theorem discovered_files_exact gm content hard fs origin watches explicit exclud
                      find_file fs (join d name) = true /\ watch_related watches d = true).
 Proof.
   unfold from_origin. intro H.
-  match type of H with In _ (t_files (run _ _ _ ?n _ _ _ (mkT _ _ ?filt ?init))) =>
-    pose proof (run_inv gm content hard fs origin watches init n (mkT [origin] [] filt init)) as R end.
+  match type of H with In _ (t_files (run _ _ _ _ _ ?n _ _ _ (mkT _ _ ?filt ?init))) =>
+    pose proof (run_inv gm content hard defer orig fs origin watches init n (mkT [origin] [] filt init)) as R end.
   match type of R with ?A -> _ => assert A as I0 by (intros x Hx; left; exact Hx) end.
   specialize (R I0 f H). destruct R as [R|(d & (name & to & Hin & -> & Hf) & W)].
   - apply in_app_or in R. destruct R as [R|R].
